@@ -1287,7 +1287,8 @@ def m_fill_bytes(E, st, fr, bi, callee, args, dest_ty):
     u8 = E.ctx.ty_by_str("u8")
     origin = rng.d.get("origin") if type(rng) is Md else None
     E.ctx.emit("entropy", frame=fr, bb=bi, rng=rng, buf=buf, seq=s, st=st, what="fill_bytes")
-    new = Sq(E.ctx.top_int(st, u8, taint=True), s.len, None, None)
+    lab = frozenset({("entropy", origin, rng.d.get("site") if type(rng) is Md else None, (fr.inst.name, bi))})
+    new = Sq(E.ctx.top_int(st, u8, taint=lab), s.len, None, None)
     p = buf
     while type(p) is Pt and p.key is not None and type(E.load(st, p.key, p.proj)) is Pt:
         p = E.load(st, p.key, p.proj)
@@ -1298,7 +1299,8 @@ def m_fill_bytes(E, st, fr, bi, callee, args, dest_ty):
 def m_rng_gen(E, st, fr, bi, callee, args, dest_ty):
     rng = deref2(E, st, args[0]) if args else None
     E.ctx.emit("entropy", frame=fr, bb=bi, rng=rng, buf=None, seq=None, st=st, what="gen")
-    return ret1(E.ctx.top_value(st, dest_ty, taint=True), st)
+    lab = frozenset({("entropy", rng.d.get("origin") if type(rng) is Md else None, rng.d.get("site") if type(rng) is Md else None, (fr.inst.name, bi))})
+    return ret1(E.ctx.top_value(st, dest_ty, taint=lab), st)
 
 
 def m_shake_default(E, st, fr, bi, callee, args, dest_ty):
@@ -1446,7 +1448,7 @@ def build(ctx):
     A(r"^(core|std)::f64::<impl f64>::min$", m_f64_minmax("min"))
     # entropy / hashing
     A(r"^rand::thread_rng$", m_thread_rng)
-    A(r"^<rand::rngs::StdRng as rand::SeedableRng>::from_seed$", m_rng_from_seed)
+    A(r"^<rand::(prelude|rngs)::StdRng as rand::SeedableRng>::from_seed$", m_rng_from_seed)
     A(r"^<.* as rand::RngCore>::fill_bytes$", m_fill_bytes)
     A(r"^rand::RngCore::fill_bytes$", m_fill_bytes)
     A(r"^<.* as rand::Rng>::gen::<", m_rng_gen)
